@@ -172,5 +172,5 @@ PROP = Prop(
                  "a container call that returns although an element is individually unconvertible, or raises although none "
                  "is, is counted as an anomaly and not a violation (the property does not forbid it)"],
     invariants=["LengthPreserved", "LabelsPreserved", "ResultPassesOwnCheck", "ExactValuesKept", "NullsStayNull",
-                "ConformingIsIdentity", "UnconvertibleValueNulled", "FailureCasesExact", "DocumentedChannel", "CoerceTwiceIsOnce"],
+                "ConformingIsIdentity", "UnconvertibleValueNulled", "NonNumericTextAccepted", "FailureCasesExact", "DocumentedChannel", "CoerceTwiceIsOnce"],
 )
